@@ -8,7 +8,8 @@
 From Coq Require Import List NArith ZArith Bool.
 From NV Require Import Base.Percent Base.PercentProofs Text.TextBase Vcf.Values Vcf.ValuesProofs
   Vcf.GenotypeProofs Vcf.SampleProofs Vcf.Span Vcf.Record Vcf.SpanProofs Vcf.Line Vcf.LineProofs Vcf.Header Vcf.HeaderProofs
-  Vcf.LazyRec Vcf.LazyRecProofs Vcf.FrameProofs Vcf.LazyFileProofs Vcf.LazyAgreeProofs Vcf.File Vcf.FileProofs.
+  Vcf.LazyRec Vcf.LazyRecProofs Vcf.FrameProofs Vcf.LazyFileProofs Vcf.LazyAgreeProofs Vcf.File Vcf.FileProofs
+  Vcf.HdrFrameProofs Vcf.FileStop Vcf.FileStopProofs Vcf.FileValsProofs.
 Import ListNotations.
 Open Scope N_scope.
 
@@ -497,11 +498,147 @@ Print Assumptions c09_header_parse_write_fixed_point_refuted.
    distinct keys that are none of the standard keys / META / PEDIGREE and contain no '=', at
    least one value each, no value that the parser takes for a structured record (from 4.3 the
    writer itself rejects values starting with '<'; before 4.3: not '<...ID=...'); sample names
-   without TAB and distinct).  Structured other records are outside the model. *)
+   without TAB and distinct).  From wave 8 header_ok also admits STRUCTURED other records
+   (group_ok, CS: ##META, ##PEDIGREE, ##SAMPLE, any ##key=<ID=..>; see c09_header_other_map_roundtrip
+   for the conditions omap_ok on one map; the maps of one key have distinct IDs, a collection is
+   not empty, keys are distinct). *)
 Theorem c09_header_roundtrip : forall h ls,
   header_ok h -> write_header h = Some ls -> parse_header ls = Some h.
 Proof. exact header_roundtrip. Qed.
 Print Assumptions c09_header_roundtrip.
+
+(* WAVE 8 -- STRUCTURED OTHER RECORDS.  One written line ##key=<idtag=id,k=v,...> is parsed back
+   to the map, for every key: META (parse_meta: the strict key / value / separator loop; Number,
+   Type and Values are written raw, Values=[..] is read up to the first ']' from 4.3), PEDIGREE
+   (parse_pedigree: the same loop; before 4.3 Child= / Derived= is the identifier and becomes the
+   map's identifier tag, which the writer emits again) and any other key (is_map, then parse_other:
+   the split_field loop).  omap_ok: the ID is raw-safe (no ',' '>', no leading quote); field keys
+   are distinct, hold no '=' and are not ID; META: identifier tag ID, a raw Number / Type / Values
+   is raw-safe -- from 4.3 Values may instead be '[' body ']' with no ']' in body (commas, '>' and
+   quotes allowed); PEDIGREE: identifier tag ID (before 4.3 also Child / Derived, and then no field
+   is called Child / Derived); other keys: identifier tag ID, no field key starts with '>'. *)
+Theorem c09_header_other_map_roundtrip : forall ff key m, omap_ok ff key m ->
+  p_other_value ff key (60 :: join 44 (omap_fields (bytes_eqb key k_META) m) ++ [62]) = Some (OVMap m).
+Proof. exact p_other_value_map. Qed.
+Print Assumptions c09_header_other_map_roundtrip.
+
+(* non-vacuity: a 4.3 header with a META map (raw Type / Number, a Values list with a comma, a
+   quoted field with a quote inside), an unstructured line, two PEDIGREE maps and a SAMPLE map is
+   inside header_ok and is written (7 lines) and parsed back *)
+Theorem c09_header_structured_witness :
+  header_ok (x_meta (4, 3)) /\
+  exists ls, write_header (x_meta (4, 3)) = Some ls /\ parse_header ls = Some (x_meta (4, 3)) /\ length ls = 7%nat.
+Proof. split; [exact x_meta_ok|exact witness_structured_roundtrip]. Qed.
+Print Assumptions c09_header_structured_witness.
+
+(* omap_ok asks raw-safety of META Values before 4.3, and that is necessary: the SAME header value
+   under VCF 4.2 (the 4.2 specification has ##META=<..,Values=[a, b]> lines too) is written with
+   the same lines, but parse_meta reads the Values list only from 4.3: the written header comes
+   back as a DIFFERENT header (input class header-meta-values-list-before-4.3-unparsable,
+   reproduced on the implementation) *)
+Theorem c09_header_meta_values_before_43_refuted :
+  exists ls h', write_header (x_meta (4, 2)) = Some ls /\ parse_header ls = Some h' /\ h' <> x_meta (4, 2) /\
+    (exists ls', write_header (x_meta (4, 3)) = Some ls' /\ tl ls' = tl ls).
+Proof. exact witness_meta_values_before_43. Qed.
+Print Assumptions c09_header_meta_values_before_43_refuted.
+
+(* WAVE 8 -- header_framed IS A CONDITION ON THE HEADER VALUE.  For a header the writer accepts,
+   "no written line holds an LF or ends with CR" is EQUIVALENT to hdr_vals_framed: no LF in any
+   byte string the writer copies into a line (IDs, Description, md5, URL, other-field keys and
+   values, keys and values of other records, identifier tags, sample names) and no CR at the end of
+   an unstructured value or of the last sample name (map lines end with '>') *)
+Theorem c09_header_framed_values : forall hd ls, write_header hd = Some ls ->
+  (header_framed hd <-> hdr_vals_framed hd).
+Proof. exact header_framed_iff_vals. Qed.
+Print Assumptions c09_header_framed_values.
+
+(* ... hence the FILE theorem with every premise on values *)
+Theorem c09_file_roundtrip_values :
+  forall fmt_float prs_float (FOK : N -> Prop),
+  (forall b, FOK b -> prs_float (fmt_float b) = Some b) ->
+  (forall b x, FOK b -> In x (fmt_float b) -> x <> 44 /\ x <> 9 /\ x <> 10 /\ x <> 59 /\ x <> 58) ->
+  (forall b, FOK b -> fmt_float b <> dot) ->
+  (forall b, FOK b -> fmt_float b <> []) ->
+  (forall b x, FOK b -> In x (fmt_float b) -> x <> 13) ->
+  forall valid hd rs text,
+  header_ok hd -> hdr_defs_ok hd = true -> hdr_vals_framed hd ->
+  Forall (rec_ok fmt_float FOK (hctx_of_header hd)) rs -> first_chrom_ok rs ->
+  (forall s, (forall b, In b s -> In b text) -> valid s = true) ->
+  write_file fmt_float hd rs = Some text ->
+  read_file_eager prs_float valid text = Some (hd, (map (canon (hctx_of_header hd)) rs, true)) /\
+  read_file_lazy prs_float valid text =
+    Some (hd, (map (fun r => Some (canon (hctx_of_header hd) r)) rs, true)).
+Proof. exact file_roundtrip_vals. Qed.
+Print Assumptions c09_file_roundtrip_values.
+
+(* ... and with the crate's OWN UTF-8 check (core::str::from_utf8 = NV.Fasta.Fastq.utf8_valid, what the
+   correspondence check runs) in place of the parameter [valid], for a written file of ASCII bytes *)
+Theorem c09_file_roundtrip_ascii_std :
+  forall fmt_float prs_float (FOK : N -> Prop),
+  (forall b, FOK b -> prs_float (fmt_float b) = Some b) ->
+  (forall b x, FOK b -> In x (fmt_float b) -> x <> 44 /\ x <> 9 /\ x <> 10 /\ x <> 59 /\ x <> 58) ->
+  (forall b, FOK b -> fmt_float b <> dot) ->
+  (forall b, FOK b -> fmt_float b <> []) ->
+  (forall b x, FOK b -> In x (fmt_float b) -> x <> 13) ->
+  forall hd rs text,
+  header_ok hd -> hdr_defs_ok hd = true -> hdr_vals_framed hd ->
+  Forall (rec_ok fmt_float FOK (hctx_of_header hd)) rs -> first_chrom_ok rs ->
+  write_file fmt_float hd rs = Some text ->
+  (forall b, In b text -> b < 128) ->
+  read_file_eager_std prs_float text = Some (hd, (map (canon (hctx_of_header hd)) rs, true)) /\
+  read_file_lazy_std prs_float text =
+    Some (hd, (map (fun r => Some (canon (hctx_of_header hd) r)) rs, true)).
+Proof. exact file_roundtrip_ascii_std. Qed.
+Print Assumptions c09_file_roundtrip_ascii_std.
+
+(* WAVE 8 -- THE READER-SIDE REPAIR of file-first-record-chrom-hash-read-as-header-line, as a model
+   switch (NV.Vcf.FileStop.header_stops_at_chrom_line; false = /repo today, true = after
+   /tmp/C09/fixes/08): read_header stops after the line the parser takes for the #CHROM line (never
+   the first line), so the next line is a record even when it starts with '#'.  With the switch
+   off the model IS the old one; with it on, the file round trip needs NO condition on the first
+   CHROM, and the former failing file is read back. *)
+Theorem c09_header_stop_switch_off : forall prs valid text,
+  read_file_eager_sw prs false valid text = read_file_eager prs valid text /\
+  read_file_lazy_sw prs false valid text = read_file_lazy prs valid text /\
+  read_file_eager_cur prs valid text = read_file_eager prs valid text /\
+  read_file_lazy_cur prs valid text = read_file_lazy prs valid text.
+Proof.
+  intros prs valid text. split; [apply read_file_eager_sw_false|]. split; [apply read_file_lazy_sw_false|].
+  apply read_file_cur_is_old.
+Qed.
+Print Assumptions c09_header_stop_switch_off.
+
+Theorem c09_file_roundtrip_stop :
+  forall fmt_float prs_float (FOK : N -> Prop),
+  (forall b, FOK b -> prs_float (fmt_float b) = Some b) ->
+  (forall b x, FOK b -> In x (fmt_float b) -> x <> 44 /\ x <> 9 /\ x <> 10 /\ x <> 59 /\ x <> 58) ->
+  (forall b, FOK b -> fmt_float b <> dot) ->
+  (forall b, FOK b -> fmt_float b <> []) ->
+  (forall b x, FOK b -> In x (fmt_float b) -> x <> 13) ->
+  forall valid hd rs text,
+  header_ok hd -> hdr_defs_ok hd = true -> hdr_vals_framed hd ->
+  Forall (rec_ok fmt_float FOK (hctx_of_header hd)) rs ->
+  (forall s, (forall b, In b s -> In b text) -> valid s = true) ->
+  write_file fmt_float hd rs = Some text ->
+  read_file_eager_sw prs_float true valid text = Some (hd, (map (canon (hctx_of_header hd)) rs, true)) /\
+  read_file_lazy_sw prs_float true valid text =
+    Some (hd, (map (fun r => Some (canon (hctx_of_header hd) r)) rs, true)).
+Proof. exact file_roundtrip_stop_vals. Qed.
+Print Assumptions c09_file_roundtrip_stop.
+
+Theorem c09_file_first_chrom_hash_stop :
+  exists hd rs text, write_file w_fmt hd rs = Some text /\
+    (exists r tl, rs = [r] /\ r_chrom r = 35 :: tl) /\
+    read_file_eager_sw w_prs false (fun _ => true) text = None /\
+    read_file_eager_sw w_prs true (fun _ => true) text = Some (hd, (map (canon (hctx_of_header hd)) rs, true)) /\
+    read_file_lazy_sw w_prs true (fun _ => true) text =
+      Some (hd, (map (fun r => Some (canon (hctx_of_header hd) r)) rs, true)).
+Proof.
+  pose proof witness_first_chrom_hash_stop as W. cbv zeta in W. destruct W as (text & A & B & _ & C & D).
+  exists (x_hdr (4, 3)), [x_rec [35; 99]], text. split; [exact A|]. split; [eexists; eexists; split; reflexivity|].
+  split; [exact B|]. split; [exact C|exact D].
+Qed.
+Print Assumptions c09_file_first_chrom_hash_stop.
 
 (* Lazy = eager: the span-relevant fields (INFO END, INFO SVLEN, FORMAT LEN) written and read back
    by the lazy and by the eager reader give the same variant_end and variant_span, equal to those
